@@ -317,6 +317,8 @@ pub fn quire_lockstep<Q: QT>(steps: &[Step], perm: u64, l: &mut Local) -> Result
         expect_bits(&nm("Quire::is_zero vs is_zero"), &args, q1.is_zero() as u64, guard(|| q2.t_is_zero() as u64))?;
         expect_bits(&nm("Quire::is_nar vs is_nar"), &args, q1.is_nar() as u64, guard(|| q2.t_is_nar() as u64))?;
         expect_bits(&nm("Quire::to_posit vs to_posit"), &args, q1.to_posit().tb(), guard(|| q2.t_to_posit().tb()))?;
+        // posit <- quire: From<&Q>, From<Q> (by value, via a bit copy), Quire::to_posit vs to_posit
+        expect_bits(&nm("P::from(&Q) vs to_posit"), &args, q1.to_posit().tb(), guard(|| q1.conv_to().tb()))?;
         let rt = Q::t_from_image(i1).image();
         if rt != i1 {
             return Err(Viol::wrong_s(nm("Quire::from_bits(to_bits)"), &args, img_hex(&i1), img_hex(&rt)));
@@ -326,6 +328,23 @@ pub fn quire_lockstep<Q: QT>(steps: &[Step], perm: u64, l: &mut Local) -> Result
         l.nontrivial(hash_args(Q::BITS as u64, &args));
     }
     l.sample(|| json!({"quire": Q::NAME, "steps": steps.len()}));
+    Ok(())
+}
+
+/// posit <-> posit: From impl, from_* and to_* must agree with each other (no oracle)
+pub fn width_spellings(src: usize, dst: usize, a: u64, l: &mut Local) -> Result<(), Viol> {
+    use super::c08::{spellings, FMT};
+    let sp = spellings(src, dst, a);
+    l.evaln(sp.len() as u64);
+    let base = sp[1].1.clone(); // the inherent from_* spelling
+    for (name, r) in &sp {
+        if *r != base {
+            same(&format!("{} vs {}", name, sp[1].0), &format!("{}->{}", FMT[src].2, FMT[dst].2), &[a], base.clone(), r.clone())?;
+        }
+    }
+    if a != 0 {
+        l.nontrivial(hash_args((src * 3 + dst) as u64 + 500, &[a]));
+    }
     Ok(())
 }
 
@@ -350,6 +369,28 @@ pub fn run(rep: &mut Report) {
     rep.generated("Q8E0 lock-step: Quire trait vs inherent over generated histories", h, || history::<P8E0>(true, 16), |(s, p), l| quire_lockstep::<Q8E0>(s, *p, l));
     rep.generated("Q16E1 lock-step: Quire trait vs inherent over generated histories", h, || history::<P16E1>(true, 16), |(s, p), l| quire_lockstep::<Q16E1>(s, *p, l));
     rep.generated("Q32E2 lock-step: Quire trait vs inherent over generated histories", h, || history::<P32E2>(true, 16), |(s, p), l| quire_lockstep::<Q32E2>(s, *p, l));
+    // tie-directed histories (threshold + one distant bit at a drawn depth): where two to_posit implementations can differ
+    rep.generated("Q16E1 lock-step on tie-directed histories", h, || tie_history::<P16E1>(), |(s, p), l| quire_lockstep::<Q16E1>(s, *p, l));
+    rep.generated("Q32E2 lock-step on tie-directed histories", h * 2, || tie_history::<P32E2>(), |(s, p), l| quire_lockstep::<Q32E2>(s, *p, l));
+    // posit <-> posit spellings: complete P8/P16 sources, complete threshold lattices and a strided scan for P32 sources
+    for &(s_, d_) in &[(0usize, 1usize), (0, 2)] {
+        rep.exhaustive(&format!("{} -> {} spellings agree, all 256 sources", super::c08::FMT[s_].2, super::c08::FMT[d_].2), 1 << 8, move |i, l| width_spellings(s_, d_, i, l));
+    }
+    for &(s_, d_) in &[(1usize, 0usize), (1, 2)] {
+        rep.exhaustive(&format!("{} -> {} spellings agree, all 65536 sources", super::c08::FMT[s_].2, super::c08::FMT[d_].2), 1 << 16, move |i, l| width_spellings(s_, d_, i, l));
+    }
+    for &(d_, tn, tes) in &[(0usize, 8u32, 0u32), (1, 16, 1)] {
+        rep.lattice(&format!("P32E2 -> {} spellings agree: every {}-bit threshold mapped into P32, offsets -8..=8", super::c08::FMT[d_].2, tn + 1), (1u64 << tn) * 17, move |i, l| {
+            let v = ((i / 17) << 1) | 1;
+            let off = (i % 17) as i64 - 8;
+            match crate::fastref::decode(tn + 1, tes, v) {
+                Some(x) => width_spellings(2, d_, ((crate::fastref::encode(32, 2, x) as i64 + off) as u64) & 0xffff_ffff, l),
+                None => Ok(()),
+            }
+        });
+        let off = rep.cfg.seed % 16;
+        rep.lattice(&format!("P32E2 -> {} spellings agree: every 16th pattern", super::c08::FMT[d_].2), 1 << 28, move |i, l| width_spellings(2, d_, i * 16 + off, l));
+    }
     // products of the smallest magnitudes: states whose only non-zero bits are in the lowest limb
     let lat = super::c01::extreme_lattice(32, 27);
     let k = lat.len() as u64;
